@@ -548,16 +548,26 @@ Section NP.
       apply (@np_ret (option addr)); [assumption|]. cbn. assumption.
   Qed.
 
-  Definition is_spec (v : value) : Prop := exists p k, v = VNil (Some (p, k)).
+  Definition is_spec (v : value) : Prop :=
+    (exists p k, v = VNil (Some (p, k))) \/ (exists nf p, v = VNative nf (Some p)).
 
   Lemma np_create_speculative : forall n spec s,
     state_ok s -> in_reg (hp s) spec -> is_spec (load (hp s) spec) ->
     np s (create_speculative n spec) (fun r s' => all_opt (in_reg (hp s')) r).
   Proof.
-    induction n as [|n IH]; intros spec s HK Hs (parent & key & Esp); cbn [create_speculative].
+    induction n as [|n IH]; intros spec s HK Hs Hspec; cbn [create_speculative].
     - apply np_fail; [assumption|discriminate|discriminate].
-    - apply np_load. rewrite Esp.
-      pose proof (cell_val s spec HK Hs) as Hsv. rewrite Esp in Hsv. cbn in Hsv.
+    - apply np_load.
+      pose proof (cell_val s spec HK Hs) as Hsv.
+      assert (Ht : exists parent key,
+                 match load (hp s) spec with
+                 | VNil (Some (parent, key)) => Some (parent, key)
+                 | VNative nf (Some parent) => Some (parent, KStr (native_name nf))
+                 | _ => None
+                 end = Some (parent, key) /\ in_reg (hp s) parent).
+      { destruct Hspec as [(p0 & k0 & Esp) | (nf & p0 & Esp)]; rewrite Esp in *; cbn in Hsv;
+          eexists; eexists; split; try reflexivity; exact Hsv. }
+      destruct Ht as (parent & key & -> & Hsv'). clear Hsv. rename Hsv' into Hsv.
       apply np_load.
       pose proof (cell_val s parent HK Hsv) as Hpv.
       assert (Hfin : forall (target : M (option addr)),
@@ -576,7 +586,7 @@ Section NP.
         apply Hfin.
         bd (apply np_m_alloc; [assumption|exact Hpv]) as pcopy s1 K1 X1 R1.
         destruct R1 as [Hpc Elc].
-        bd (apply IH; [assumption|assumption|rewrite Elc; eexists; eexists; reflexivity]) as np0 s2 K2 X2 R2.
+        bd (apply IH; [assumption|assumption|rewrite Elc; left; eexists; eexists; reflexivity]) as np0 s2 K2 X2 R2.
         destruct np0 as [newparent|]; [|apply (@np_ret (option addr)); [assumption|exact Logic.I]].
         cbn in R2.
         assert (Hnv : forall f : heap -> value * heap,
@@ -610,15 +620,21 @@ Section NP.
       bd (apply np_m_store; [assumption|assumption|]).
       { eapply copy_value_ok; [|exact Ec]. apply cell_val; assumption. }
       apply np_ret; assumption. }
-    destruct (load (hp s) left) as [x|x|x|? ? ?|x|[[p2 k2]|]|? ?|x|x|] eqn:Elv;
+    destruct (load (hp s) left) as [x|x|x|? ? ?|x|[[p2 k2]|]|? [p2|]|x|x|] eqn:Elv;
       try (bd (apply np_ret with (R := fun a s' => in_reg (hp s') a); assumption);
            apply Hrest; assumption).
-    bd (instantiate (1 := fun a s' => in_reg (hp s') a);
-        eapply np_bind;
-        [apply np_create_speculative;
-         [assumption|assumption|rewrite Elv; eexists; eexists; reflexivity]|]).
-    { intros r s1 K1 X1 R1. destruct r as [c|]; [apply np_ret; assumption|apply np_rt_error; assumption]. }
-    apply Hrest; assumption.
+    - bd (instantiate (1 := fun a s' => in_reg (hp s') a);
+          eapply np_bind;
+          [apply np_create_speculative;
+           [assumption|assumption|rewrite Elv; left; eexists; eexists; reflexivity]|]).
+      { intros r s1 K1 X1 R1. destruct r as [c|]; [apply np_ret; assumption|apply np_rt_error; assumption]. }
+      apply Hrest; assumption.
+    - bd (instantiate (1 := fun a s' => in_reg (hp s') a);
+          eapply np_bind;
+          [apply np_create_speculative;
+           [assumption|assumption|rewrite Elv; right; eexists; eexists; reflexivity]|]).
+      { intros r s1 K1 X1 R1. destruct r as [c|]; [apply np_ret; assumption|apply np_rt_error; assumption]. }
+      apply Hrest; assumption.
   Qed.
 
   Lemma unop_simple u v r : unop_value u v = VOk r -> simple r.
